@@ -183,6 +183,8 @@ def o_C04(op, ob, before):
 def o_C05(op, ob, before):
     """exactly one handler call, with the code returned, iff a constraint is violated"""
     m = op.meta
+    if m.get("early") and ob.fault:
+        return [Fail("C05", "%s:touched-before-rejecting" % op.fn, ob.fault)]
     if ob.fault or "viol" not in m:
         return []
     out = []
@@ -205,8 +207,6 @@ def o_C05(op, ob, before):
             out.append(Fail("C05", "%s:spurious-failure:ret=%s" % (op.fn, code), "ev=%s" % ob.ev))
         if ob.ev:
             out.append(Fail("C05", "%s:spurious-handler" % op.fn, "ev=%s ret=%s" % (ob.ev, ob.ret)))
-    if m.get("early") and ob.fault:
-        out.append(Fail("C05", "%s:touched-before-rejecting" % op.fn, ob.fault))
     return out
 
 
@@ -251,6 +251,14 @@ def o_C07(op, ob, before):
         out.append(Fail("C07", "%s:disjoint-rejected" % op.fn, ""))
     if ovl["must"] and code == EOK:
         out.append(Fail("C07", "%s:overlap-not-detected" % op.fn, ""))
+    if ovl.get("moveok") and code == EOK and m.get("ref", {}).get("cells") is not None and m.get("dest") is not None:
+        # the memmove family: for every placement exactly the bytes a copy through a temporary would produce
+        k, off = m["dest"]
+        want = m["ref"]["cells"]
+        got = ob.img[k][off:off + len(want)]
+        if got != want:
+            i = next(i for i, (a, b) in enumerate(zip(got, want)) if a != b)
+            out.append(Fail("C07", "%s:move-not-exact" % op.fn, "at %d got %x want %x" % (i, got[i], want[i])))
     if code == ESOVRLP and usable_dest(m):
         if any(dest_cells(op, ob.img)) and m.get("slack", 1):
             out.append(Fail("C07", "%s:overlap-dest-not-cleared" % op.fn, ""))
